@@ -447,11 +447,30 @@ def corr(case, impl, model):
         return None
     a, b = steps(impl), steps(model)
     exact = EXACT_CAPACITY[0]
+    ops = [t for t in split(case)[1] if t[0] != 'N']
     for n, (x, y) in enumerate(zip(a, b)):
         if raised(x.split(';')[0]):
             exact = False
         if x != y:
             fx, fy = x.split(';'), y.split(';')
+            if (n >= 1 and n - 1 < len(ops) and ops[n - 1].rstrip('!^~') == 't' and len(fx) == 7 and len(fy) == 7
+                    and fx[:2] == fy[:2] and fx[3:] == fy[3:] and fx[3] == '=' and fx[4] == '='):
+                # a sort whose result differs from the modelled quicksort's only in the order of the elements:
+                # which of the valid orders comes out (ties; any order at all for a comparison outside the
+                # sort contract) is the algorithm's choice, not the property's.  Accept a permutation of the
+                # previous contents that has no inversion under an in-contract comparison, and stop
+                # comparing this case (the states differ from here on)
+                k = cmp_of(case)
+                try:
+                    got = [int(v) for v in fx[2].split(',')] if fx[2] else []
+                    want = [int(v) for v in fy[2].split(',')] if fy[2] else []
+                except ValueError:
+                    return 'step %d: implementation %s / model %s' % (n, x, y)
+                if sorted(got) != sorted(want):
+                    return 'step %d: sort left [%s], not a permutation of the model\'s [%s]' % (n, fx[2], fy[2])
+                if k in CMP_IN_CONTRACT and any(CMPS[k](got[j], got[i]) for j in range(len(got)) for i in range(j)):
+                    return 'step %d: sort_by(%s) left [%s], which has an inversion (model: [%s])' % (n, CMP_NAMES[k], fx[2], fy[2])
+                return None
             if case[0] == 'A' and len(fx) == 7 and len(fy) == 7 and fx[:6] == fy[:6] and fx[6].isdigit() and fx[1].isdigit():
                 if exact:
                     return 'step %d: capacity %s, the model (policy read from the source) says %s: %s' % (n, fx[6], fy[6], x)
